@@ -70,7 +70,10 @@ CHECKS["C15"] = _c("expansion of gogen's ordered-map templates (constants of the
 CHECKS["C34"] = _c("expansion of gogen's keyed-list helper templates over a frozen table of key shapes (standard library text/template, no repo code run) followed by per-method effect/guard analysis of the residual Go code",
     "Decides, for 7 key shapes, that New/Append reject duplicate (and nil) keys before writing, New's entry carries the key arguments, Append derives the key from the element, Get writes nothing and never creates, GetOrCreate creates only on a miss, Delete removes only the key, Rename validates first, sets every key leaf from newK in the right direction and moves the entry, and ΛListKeyMap covers every key.")
 
-for _p in ["C26","C27","C29","C33"]:
+CHECKS["C33"] = _c("expansion of gogen's PopulateDefaults/getter templates (standard library text/template over analyser-built leaf shapes) + the same per-method guard analysis over the 30 compiled PopulateDefaults methods; provenance analysis of Go literals in yangDefaultValueToGo; key-statement substring lint",
+    "Decides that PopulateDefaults writes a leaf only under that leaf's unset test with a fresh default literal, writes exactly the defaulted leaves and descends into every child; that default literals are %q-quoted or parsed-then-raw and validated against the type's restrictions at generation; and that `key` statements are never searched by substring.")
+
+for _p in ["C26","C27","C29"]:
     NA[_p] = NOT_YET
 NA["C10"] = "quantifies over runtime trees, paths and payloads; its structural clauses (key and value tables) are decided under C16/C18 and the frame clause has no static handle here (DESIGN.md §7)"
 NA["C23"] = "classification of runtime leaves after single-leaf edits; no clause visible in code shape beyond those claimed under C22 (DESIGN.md §7)"
